@@ -2,5 +2,5 @@
 # runs every thorough check sequentially, evidence to a scratch dir (background validation; not the registered evidence)
 mkdir -p /tmp/thorough_ev
 for i in ${CHECKS:-$(seq -w 1 20)}; do
-  /usr/bin/time -f "C$i %es" /venv/bin/python run.py C$i --tier thorough --evidence-dir /tmp/thorough_ev 2>&1 | tail -3 | cut -c1-400
+  /usr/bin/time -f "C$i %es" /venv/bin/python run.py C$i --tier thorough --evidence-dir /tmp/thorough_ev 2>&1 | grep -E "VIOLATION|KNOWN-FINDING|tier=|^C[0-9]+ [0-9.]+s" | cut -c1-600
 done
